@@ -2,7 +2,7 @@
    Only statements.  Model: Async/Conn.v (Request::poll_input / poll_output / writeable, handler scripts).
    K a u = the content of the active stream still to come from parser state a over future bytes u (Parser/StreamSpec.v);
    [remaining w] = client bytes not yet delivered by the transport; acct = the conservation record of Async/ConnReads.v. *)
-From FV Require Import Base.Bytes Gen.Generated Parser.ReqModel Parser.ReqTargets Parser.StreamModel Parser.AbsStream Parser.StreamSpec Parser.StreamRefine Parser.StreamInv Async.Conn Async.ConnWrites Async.ConnTotal Async.ConnReads.
+From FV Require Import Base.Bytes Gen.Generated Parser.ReqModel Parser.ReqTargets Parser.StreamModel Parser.AbsStream Parser.StreamSpec Parser.StreamRefine Parser.StreamInv Async.Conn Async.ConnWrites Async.ConnTotal Async.ConnReads Async.ReadsWTargets Async.ReadsWProofs.
 
 (* ==== pinned from the proof files (tools/write_props.py) ==== *)
 
@@ -76,8 +76,7 @@ Theorem C09_read_to_end :
   read_all maxc fuel acc r w = Ok (0, acc', r') w' -> acc' = acc ++ K (abs (rsp r)) (remaining w).
 Proof. exact read_all_complete. Qed.
 
-(* a handler that only reads (read / read_to_end / fill_buf+consume in any mix, any buffer sizes; also a read that is
-   polled once and dropped, op 11: rd_only / obs_of admit it, observations OPoll / OPollErr / OPollPending): the bytes it
+(* a handler that only reads (read / read_to_end / fill_buf+consume in any mix, any buffer sizes): the bytes it
    observes, in order, are exactly a prefix of the stream content, and what it has not seen is still to come *)
 Theorem C09_handler_reads :
   forall (maxc : N) (script : list N) (f : nat) (r : rstate) (w : world),
@@ -107,6 +106,16 @@ Theorem C09_handler_reads_and_switches :
   pinv (rsp r) ->
   bytes_ok (remaining w) -> hr_post script (abs (rsp r)) (remaining w) r w (run_handler maxc f script r w).
 Proof. exact run_handler_reads_top. Qed.
+
+(* EVERY handler of the family, writes and flushes to stdout/stderr interleaved anywhere (all eleven opcodes,
+   any write sizes, write faults included): the same trace law for the read side, whatever was written in
+   between (hw_post / htlaw: Async/ReadsWTargets.v) *)
+Theorem C09_handler_reads_with_writes :
+  forall (maxc : N) (script : list N) (f : nat) (r : rstate) (w : world),
+  any_script script ->
+  pinv (rsp r) ->
+  bytes_ok (remaining w) -> hw_post script (abs (rsp r)) (remaining w) r w (run_handler maxc f script r w).
+Proof. exact run_handler_reads_w_top. Qed.
 
 (* the gate: poll_input opens it only when it went to the parser, returned Ok and the active stream is the
    role's final stream; nothing closes it *)
